@@ -197,7 +197,7 @@ var checkSpecs = map[string]*checkSpec{
 		},
 		stubs: []string{"see C06; sync.Mutex/RWMutex are executor objects with an owner, visible to the monitor; sync/atomic and atomic.Value bypass the monitor by construction"},
 		bounds: map[string]string{
-			"quick":    "29 UDPSession entry points (every exported non-deprecated method plus update, one postProcess iteration, packetInput) on the dialled and the accepted session and 11 Listener entry points, each with symbolic arguments from an established connection, cipher {nil, blockCrypt over the UF cipher} x FEC {off,(2,1)}; TimedSched.Put; every load/store of a guarded cell or map on every feasible path is checked against the lock state",
+			"quick":    "30 UDPSession entry points (incl. consecutive short Reads served from left-over bytes) (every exported non-deprecated method plus update, one postProcess iteration, packetInput) on the dialled and the accepted session and 11 Listener entry points, each with symbolic arguments from an established connection, cipher {nil, blockCrypt over the UF cipher} x FEC {off,(2,1)}; TimedSched.Put; every load/store of a guarded cell or map on every feasible path is checked against the lock state",
 			"thorough": "same",
 		},
 		outside: "schedules; locations not in G1-G5; code that is race-free by a different correct mechanism would need the table extended (false-alarm risk recorded in DESIGN.md)",
